@@ -15,3 +15,20 @@ Proof. exact lexer_ok_no_oob. Qed.
 
 Print Assumptions C03_validated.
 Print Assumptions C03_no_out_of_range_state.
+
+(* THE MEANING OF A PATTERN (the front end that turns pattern text into the regular expression C03_validated speaks about):
+   whenever a byte string scans into tokens and t is the right-nested derivation tree of the token string (the pattern grammar is
+   ambiguous in '|'; the table resolves it to the right: a|b|c = a|(b|c)), the regular expression the pattern parser returns is the
+   evident reading of the tree - rules as regex constructors, lexemes decoded to character sets - for EVERY pattern. *)
+Require Import Ctpg.Model.Grammar Ctpg.Model.RegexFront Ctpg.Spec.Cfg Ctpg.Spec.Eval Ctpg.Proofs.PatternParse
+               Ctpg.Proofs.PatternCompleteTrees Ctpg.Proofs.PatternCompleteSim Ctpg.Proofs.PatternComplete.
+Theorem C03_pattern_meaning : forall p toks t pt,
+  scans p toks -> rnt 0 t -> yield t = map tok_term toks ->
+  strip regex_g pt = t -> pleaves regex_g pt = toks -> parse_pattern p = denote p pt.
+Proof. exact parse_pattern_meaning_all. Qed.
+Print Assumptions C03_pattern_meaning.
+
+Theorem C03_pattern_grammar_is_ambiguous_in_alternation :
+  derives_tree regex_g tree_left [1; 5; 1; 5; 1] /\ derives_tree regex_g tree_right [1; 5; 1; 5; 1] /\ tree_left <> tree_right.
+Proof. exact pattern_grammar_ambiguous. Qed.
+Print Assumptions C03_pattern_grammar_is_ambiguous_in_alternation.
